@@ -18,6 +18,7 @@ fn main() {
         usage();
     }
     install_panic_hook();
+    pkverif::install_logger();
     if args[1] == "__corpus" {
         let n = args.get(3).and_then(|s| s.parse().ok()).unwrap_or(24);
         match pkverif::fuzzapi::write_corpus(std::path::Path::new(&args[2]), n) {
